@@ -1,10 +1,53 @@
 (* C17 -- Valid parameters always yield a schedule; invalid ones fail before any action
    Property theorems only: each proof is one application of a lemma proved in Proofs/, followed by Print Assumptions. *)
 From Coq Require Import ZArith List Bool.
-From CS Require NAdv AllocProofs.
-From CS Require Import Actions NAdvance Multistage Exec Sched RunFacts Projections BasicInv MultistageRun TLBridge MixBridge.
+From CS Require NAdv AllocProofs InvalidProofs.
+From CS Require Import Actions NAdvance Multistage Exec Sched RunFacts Projections BasicInv MultistageRun AllocTotal TLBridge MixBridge.
 Import ListNotations.
 Open Scope Z_scope.
+
+(* valid parameters yield a complete stream: the run theorems, which have no hypothesis beyond the documented domain
+   (degenerate cases max_n = 1 and more units than steps included); the streams end with EndReverse by C09_flags + termination *)
+Theorem C17_multistage_complete : forall (N ram disk : Z) (tj : traj) (k : nat), 1 <= N -> 0 <= ram -> 0 <= disk -> (2 <= N -> 1 <= ram + disk) ->
+  exists o0 m ls, run_case (PMulti N ram disk tj) (ms_params N ram disk) (repeat Next k) = Ok (o0, m, ls) /\ mon_ok m /\ no_raise ls.
+Proof. exact multistage_run_total. Qed.
+Print Assumptions C17_multistage_complete.
+Theorem C17_mixed_complete : forall (N s : Z) (sg : storage) (tab : bool) (k : nat), 1 <= N -> 0 <= s -> (2 <= N -> 1 <= s) -> sg = RAM \/ sg = DISK ->
+  exists o0 m ls, run_case (PMixed N s sg tab) (pmx N (Z.min s (N - 1)) sg) (repeat Next k) = Ok (o0, m, ls) /\ mon_ok m /\ no_raise ls.
+Proof. exact mixed_run. Qed.
+Print Assumptions C17_mixed_complete.
+Theorem C17_twolevel_complete : forall (N P bs : Z) (bst : storage) (tj : traj), 1 <= N -> 1 <= P -> 0 <= bs -> bst = RAM \/ bst = DISK -> forall k : nat,
+  exists o0 m ls, run_case (PTwo P bs bst tj) (ptl N P bs bst) (repeat Next (Z.to_nat (TLBridge.Q N P)) ++ [Fin N] ++ repeat Next (S k)) = Ok (o0, m, ls) /\ mon_ok m /\ no_raise ls.
+Proof. exact twolevel_run. Qed.
+Print Assumptions C17_twolevel_complete.
+
+(* the Multistage constructor returns for every tuple of the domain *)
+Module M_C17_multistage_construct_total.
+Import AllocTotal.
+Theorem C17_multistage_construct_total :
+  forall (N ram disk : Z) (tj : NAdvance.traj),
+         1 <= N ->
+         0 <= ram ->
+         0 <= disk ->
+         (2 <= N -> 1 <= ram + disk) ->
+         exists c : Multistage.cfg, Multistage.construct N ram disk tj = Actions.Ok c.
+Proof. exact (@AllocTotal.construct_total). Qed.
+Print Assumptions C17_multistage_construct_total.
+End M_C17_multistage_construct_total.
+
+(* allocate_snapshots (dry run of the schedule with placeholder labels, weighing, top-k) never raises on the domain *)
+Module M_C17_allocate_total.
+Import AllocTotal.
+Theorem C17_allocate_total :
+  forall (N ram disk : Z) (t : NAdvance.traj),
+         1 <= N ->
+         0 <= ram ->
+         0 <= disk ->
+         (2 <= N -> 1 <= ram + disk) ->
+         exists al : list Z * list Actions.storage, Multistage.allocate N ram disk t = Actions.Ok al.
+Proof. exact (@AllocTotal.allocate_total). Qed.
+Print Assumptions C17_allocate_total.
+End M_C17_allocate_total.
 
 (* n_advance never raises on its domain; range; limiting cases; optimal region *)
 Module M_C17_n_advance_total.
@@ -46,4 +89,63 @@ Theorem C17_construct_labels :
 Proof. exact (@AllocProofs.construct_labels). Qed.
 Print Assumptions C17_construct_labels.
 End M_C17_construct_labels.
+
+(* max_n < 1: ValueError at construction *)
+Module M_C17_multistage_rejects_max_n.
+Import InvalidProofs.
+Theorem C17_multistage_rejects_max_n :
+  forall (N ram disk : Z) (tj : NAdvance.traj),
+         N < 1 -> Sched.construct (Sched.PMulti N ram disk tj) = Actions.Err Actions.ValueError.
+Proof. exact (@InvalidProofs.multistage_rejects_max_n). Qed.
+Print Assumptions C17_multistage_rejects_max_n.
+End M_C17_multistage_rejects_max_n.
+
+(* no unit and max_n > 1: the constructor returns, the first next() raises ValueError and the generator is finished -- no action is ever emitted *)
+Module M_C17_multistage_no_units.
+Import InvalidProofs.
+Theorem C17_multistage_no_units :
+  forall (N : Z) (tj : NAdvance.traj),
+         2 <= N ->
+         exists s : Sched.sched,
+           Sched.construct (Sched.PMulti N 0 0 tj) = Actions.Ok s /\
+           (exists s' : Sched.sched,
+              Sched.next s = (s', Actions.Raise Actions.ValueError) /\
+              snd (Sched.next s') = Actions.StopIteration).
+Proof. exact (@InvalidProofs.multistage_no_units). Qed.
+Print Assumptions C17_multistage_no_units.
+End M_C17_multistage_no_units.
+
+(* Mixed: max_n < 1, no unit for max_n > 1, or a storage other than RAM / DISK: ValueError at construction (both planner paths) *)
+Module M_C17_mixed_rejects.
+Import InvalidProofs.
+Theorem C17_mixed_rejects :
+  forall (N s : Z) (sg : Actions.storage),
+         N < 1 \/ s < Z.min 1 (N - 1) \/ sg = Actions.WORK \/ sg = Actions.NONE ->
+         Sched.construct (Sched.PMixed N s sg false) = Actions.Err Actions.ValueError /\
+         Sched.construct (Sched.PMixed N s sg true) = Actions.Err Actions.ValueError.
+Proof. exact (@InvalidProofs.mixed_rejects). Qed.
+Print Assumptions C17_mixed_rejects.
+End M_C17_mixed_rejects.
+
+(* TwoLevel: period < 1 or a binomial storage other than RAM / DISK: ValueError at construction *)
+Module M_C17_twolevel_rejects.
+Import InvalidProofs.
+Theorem C17_twolevel_rejects :
+  forall (P bs : Z) (bst : Actions.storage) (tj : NAdvance.traj),
+         P < 1 \/ bst = Actions.WORK \/ bst = Actions.NONE ->
+         Sched.construct (Sched.PTwo P bs bst tj) = Actions.Err Actions.ValueError.
+Proof. exact (@InvalidProofs.twolevel_rejects). Qed.
+Print Assumptions C17_twolevel_rejects.
+End M_C17_twolevel_rejects.
+
+(* PARTIAL (Revolve family): max_n < 1 or no RAM unit for max_n > 1 is an exception at construction; that valid tuples always yield a complete stream is not proved for the Revolve family (correspondence + oracle) *)
+Module M_C17_revolve_family_rejects_partial.
+Import InvalidProofs.
+Theorem C17_revolve_family_rejects_partial :
+  forall (k : RevConv.rkind) (N ram disk uf ub wd rd : Z),
+         N < 1 \/ ram < Z.min 1 (N - 1) ->
+         exists e : Actions.exn, Sched.construct (Sched.PRev k N ram disk uf ub wd rd) = Actions.Err e.
+Proof. exact (@InvalidProofs.revolve_rejects). Qed.
+Print Assumptions C17_revolve_family_rejects_partial.
+End M_C17_revolve_family_rejects_partial.
 
